@@ -741,6 +741,19 @@ def run_check(prop, tier="quick", seed=1, workers=None, wall=None, max_runs=None
         print(f"VIOLATION property={prop} replay={path}")
         print(f"  rule={vj['rule']} signature={json.dumps(vj['signature'], sort_keys=True)} seeds={[s for s, _v, _s in lst[:5]]} count={len(lst)}")
         print(f"  {vj.get('message', '')}")
+    # a listed finding the exploration of this run did not happen to meet is shown from its committed replay
+    for e in known:
+        if e.get("status") == "known" and e.get("property") == prop and e["id"] not in known_seen and e.get("replay"):
+            rp = os.path.join(VERIF, e["replay"])
+            try:
+                rep_, _v, herr_ = replay_file(rp)
+            except BaseException as e_:  # noqa: BLE001
+                print(f"NOTE known finding {e['id']}: replay could not be executed ({type(e_).__name__})")
+                continue
+            if rep_ and not herr_:
+                known_seen[e["id"]] = 1
+            else:
+                print(f"NOTE known finding {e['id']} did not reproduce from {e['replay']} on this tree")
     for e in known:
         if e.get("status") == "known" and e.get("property") == prop and e["id"] in known_seen:
             print(f"KNOWN-FINDING: property={prop} {e['what']} (rule={e['rule']}, seen {known_seen[e['id']]}x this run, replay={e.get('replay')})")
